@@ -87,7 +87,10 @@ class YamlInterface(FileInterface):
 
     def save(self, filename: str, data: dict) -> None:   # pragma: no cover
         """Save config to yaml file."""
+        # use a fresh emitter for every write. after a dump which failed half way (e.g. an I/O error) the shared
+        # instance silently writes nothing at all on all following dumps.
+        yaml_writer = yaml.YAML(typ='safe')
+        yaml_writer.default_flow_style = False
+        yaml_writer.line_break = ''
         with open(filename, 'w', encoding='utf8') as output_file:
-            _yaml.default_flow_style = False
-            _yaml.line_break = ''
-            _yaml.dump(data, output_file)
+            yaml_writer.dump(data, output_file)
